@@ -98,6 +98,7 @@ func accesses(prog *ssa.Program, pkgs []*packages.Package, out *Out) {
 	}
 	sort.Slice(entries, func(i, j int) bool { return entries[i].String() < entries[j].String() })
 	seen := map[*ssa.Function]bool{}
+	var roots []*ssa.Function // entry points, in analysis order (also the entry points of the acquisition table, acquire.go)
 	for _, f := range entries {
 		if seen[f] || len(f.Blocks) == 0 {
 			continue
@@ -113,14 +114,19 @@ func accesses(prog *ssa.Program, pkgs []*packages.Package, out *Out) {
 			continue
 		}
 		an.analyze(f, &accCtx{held: map[string]string{}, after: map[string]bool{}, init: isInit, bind: map[ssa.Value]string{}})
+		roots = append(roots, f)
 	}
 	// closures whose value is used dynamically are entries too (analysed with unknown bindings)
+	var dynRoots []*ssa.Function
 	for f := range valueUsed {
 		if f.Parent() != nil && an.libPkgs[f.Pkg] != "" && !seen[f] {
 			seen[f] = true
 			an.analyze(f, &accCtx{held: map[string]string{}, after: map[string]bool{}, bind: map[ssa.Value]string{}})
+			dynRoots = append(dynRoots, f)
 		}
 	}
+	sort.Slice(dynRoots, func(i, j int) bool { return dynRoots[i].String() < dynRoots[j].String() })
+	an.acquisitions(append(roots, dynRoots...), out)
 	for _, s := range an.sites {
 		out.Accesses = append(out.Accesses, s)
 	}
